@@ -529,7 +529,8 @@ impl ArraySubset {
         ) {
             let overlap_start = *std::cmp::max(start, other_start);
             let overlap_end = std::cmp::min(start + size, other_start + other_size);
-            ranges.push(overlap_start..overlap_end);
+            // Disjoint subsets have an empty overlap (avoid underflow in `new_with_ranges`)
+            ranges.push(overlap_start..std::cmp::max(overlap_start, overlap_end));
         }
         Self::new_with_ranges(&ranges)
     }
